@@ -157,4 +157,84 @@ theorem iu2iu_flip_exact {w : Writer} {rnd : Rat → Rat} {o : OutT} {sh bm : In
     rw [this]
     unfold applyReadScaling; push_cast; ring
 
+/-! ### finite_range -/
+
+/-- `finite_range` really brackets every finite element -/
+theorem finiteRange_mem : ∀ (data : List Val) (mn mx : Rat) (hn : Bool),
+    finiteRange data = (some (mn, mx), hn) → ∀ r, Val.fin r ∈ data → mn ≤ r ∧ r ≤ mx := by
+  intro data
+  induction data with
+  | nil => intro mn mx hn h; simp [finiteRange] at h
+  | cons a l ih =>
+    intro mn mx hn h r hr
+    cases hfr : finiteRange l with
+    | mk fr hn' =>
+      cases a with
+      | fin x =>
+        cases fr with
+        | none =>
+          simp only [finiteRange, hfr] at h
+          injection h with h1 h2; injection h1 with h1; injection h1 with ha hb
+          subst ha hb
+          rcases List.mem_cons.mp hr with e | e
+          · injection e with e; subst e; exact ⟨le_refl _, le_refl _⟩
+          · -- no finite element in `l`
+            exfalso
+            have : ∀ (l : List Val) (hn : Bool), finiteRange l = (none, hn) → ∀ r, Val.fin r ∉ l := by
+              intro l
+              induction l with
+              | nil => intro _ _ r hr; cases hr
+              | cons b l ih2 =>
+                intro hn h r hr
+                cases hb : finiteRange l with
+                | mk fr2 hn2 =>
+                  cases b with
+                  | fin y => simp [finiteRange, hb] at h
+                  | nan =>
+                    simp only [finiteRange, hb] at h
+                    injection h with h1 _; subst h1
+                    rcases List.mem_cons.mp hr with e | e
+                    · cases e
+                    · exact ih2 _ hb r e
+                  | pinf =>
+                    simp only [finiteRange, hb] at h
+                    injection h with h1 _; subst h1
+                    rcases List.mem_cons.mp hr with e | e
+                    · cases e
+                    · exact ih2 _ hb r e
+                  | ninf =>
+                    simp only [finiteRange, hb] at h
+                    injection h with h1 _; subst h1
+                    rcases List.mem_cons.mp hr with e | e
+                    · cases e
+                    · exact ih2 _ hb r e
+            exact this l hn' hfr r e
+        | some ab =>
+          obtain ⟨a', b'⟩ := ab
+          simp only [finiteRange, hfr] at h
+          injection h with h1 h2; injection h1 with h1; injection h1 with ha hb
+          subst ha hb
+          rcases List.mem_cons.mp hr with e | e
+          · injection e with e; subst e; exact ⟨min_le_left _ _, le_max_left _ _⟩
+          · have := ih a' b' hn' hfr r e
+            exact ⟨le_trans (min_le_right _ _) this.1, le_trans this.2 (le_max_right _ _)⟩
+      | nan =>
+        simp only [finiteRange, hfr] at h
+        injection h with h1 _; subst h1
+        rcases List.mem_cons.mp hr with e | e
+        · cases e
+        · exact ih mn mx hn' hfr r e
+      | pinf =>
+        simp only [finiteRange, hfr] at h
+        injection h with h1 h2; subst h1
+        rcases List.mem_cons.mp hr with e | e
+        · cases e
+        · exact ih mn mx hn' hfr r e
+      | ninf =>
+        simp only [finiteRange, hfr] at h
+        injection h with h1 h2; subst h1
+        rcases List.mem_cons.mp hr with e | e
+        · cases e
+        · exact ih mn mx hn' hfr r e
+
 end Nb.C02
